@@ -17,7 +17,7 @@ META = {
     "rule": (
         "Case = child context / parallel / map whose serialized result has length L+d for d in {-2..+2, +-1K, x2} around the "
         "checkpoint limit L (child results are padded to an exact serialized length computed by a probe serialization; "
-        "batch results are pushed over L by branch payloads that are individually below L), with/without summary "
+        "batch results are pushed over L by branch payloads that are individually below L, or individually above it), with/without summary "
         "generator, nested, with failing branches, followed by a wait and crashes so that replays happen; handler "
         "results/errors of size R+d around the response limit R (ASCII, 2-byte text sized by its escaped length, and 3-byte text whose "
         "character count is below R while its UTF-8 size is above). Mass exploration patches both "
@@ -62,6 +62,9 @@ def mon_c16(run, case):
             d = v["detail"]
             if any(p in d for p in big):
                 run.v("C16", f"oversize_replay:{v['kind']}", v["site"], d)
+    for v in list(run.violations):
+        if v["property"] == "C09" and v["kind"] == "item_status_wrong" and v["site"].endswith(":large-result"):
+            run.v("C16", "oversize_branch_result_lost", "branch", v["detail"])
     first = {}
     for o in run.obs:
         if o["path"] in big and o["out"] in ("value", "exc"):
@@ -125,7 +128,7 @@ def cases(draw):
         body = [ch]
     elif kind in ("parallel", "map"):
         n = draw(st.integers(2, 3))
-        per = max(10, int(L * draw(st.sampled_from([0.2, 0.45, 0.6, 0.9])))) if not real else int(L * draw(st.sampled_from([0.3, 0.45, 0.6])))
+        per = max(10, int(L * draw(st.sampled_from([0.2, 0.45, 0.6, 0.9, 1.2, 2.5])))) if not real else int(L * draw(st.sampled_from([0.3, 0.45, 0.6, 1.1])))
         failing = draw(st.booleans())
         summ = draw(st.sampled_from([None, "none", "custom"]))
         comp = {"min": None, "tol": n, "pct": None}
